@@ -198,7 +198,7 @@ func runMain(args []string) int {
 			inits := map[string]*State{}
 			defer func() {
 				if ex != nil {
-					ex.solver.Close()
+					ex.Close()
 				}
 			}()
 			for {
@@ -218,7 +218,7 @@ func runMain(args []string) int {
 							n := runtime.Stack(buf, false)
 							res.err = fmt.Sprintf("%v\n%s", r, buf[:n])
 							if ex != nil {
-								ex.solver.Close()
+								ex.Close()
 								ex = nil
 								inits = map[string]*State{}
 							}
@@ -257,7 +257,7 @@ func runMain(args []string) int {
 					}
 					ex.symAddr = u.spec.SymAddr
 					ex.mapOrders = !u.spec.NoMapOrders
-					q0, s0, us0, uk0, st0t := ex.solver.NQueries, ex.solver.NSat, ex.solver.NUnsat, ex.solver.NUnknown, ex.solver.Time
+					q0, s0, us0, uk0, st0t := ex.solverCounts()
 					fn := loaded.pkgs[u.spec.Pkg].Func(u.spec.Fn)
 					if fn == nil {
 						panic("harness function not found: " + u.spec.Fn)
@@ -266,10 +266,11 @@ func runMain(args []string) int {
 					res.stats = ex.stats
 					res.viols = ex.viols
 					res.samples = ex.samples
-					res.queries, res.sat, res.unsat, res.unknown = ex.solver.NQueries-q0, ex.solver.NSat-s0, ex.solver.NUnsat-us0, ex.solver.NUnknown-uk0
-					res.solverT = ex.solver.Time - st0t
+					q1, s1, us1, uk1, st1t := ex.solverCounts()
+					res.queries, res.sat, res.unsat, res.unknown = q1-q0, s1-s0, us1-us0, uk1-uk0
+					res.solverT = st1t - st0t
 					res.wall = time.Since(t1)
-					res.solverErr = ex.solver.HadError
+					res.solverErr = ex.solver.HadError || (ex.alt != nil && ex.alt.HadError)
 					for _, v := range res.viols {
 						v.Harness = u.spec.Fn
 					}
